@@ -284,7 +284,14 @@ def r4(cx):
           "Node::from_str does not return a freshly built node without parent/next/children links for an id that is absent from the static tree",
           f.loc(), consequence="acts generated at run time (parallel / sequence / block / pushed acts) come back detached after a reload: "
                                "their `next` and children are lost, remaining sequence items are silently skipped")
-    cx.floor("C12.R4", 1)
+    # a row whose node is not part of the model gets a node of its own, built from THAT row. Run-time node ids are not unique
+    # within a process (every act a generator makes copies the template's id, the content - $index / $value - differs), so
+    # the loader must not register such a node in the shared tree and hand it to the next row with the same id
+    writes = [short_name(c.q) for c in f.calls() if c.args and pa.root(f, c.args[0])[:2] == ("param", 2) and not re.search(r"NodeTree::node$|Deref>::deref$", c.q)]
+    cx.ob("C12.R4", "from_str:own-node", not writes and bool(lookups),
+          "Node::from_str only looks the id up in the tree; it does not add to the tree (calls on the tree: %s)" % (writes or "the lookup only"), f.loc(),
+          **({} if not writes else {"consequence": "after a reload every task of a generated act is bound to the content of whichever row with that id was read first: u1's approval announces u2's $index / $value"}))
+    cx.floor("C12.R4", 2)
 
 
 def r5(cx):
